@@ -107,8 +107,10 @@ def _chk_flat(args, res, old):
     xl, yl = V.xlabel_of(first), V.ylabel_of(first)
     for k, r in enumerate(cn.data.itertuples(index=False)):
         cls = V.cls_of(r.chromosome, r.start, r.end, xl, yl, V.par_of(old["par"]))
+        if cls == 4 and old["male_ref"]:
+            continue                       # PAR-Y under a male reference and a diploid-PAR genome: not specified
         if cls == 4:
-            continue                       # PAR-Y under a diploid-PAR genome: not specified by the statement
+            cls = 2                        # female reference: every Y bin, PAR included, sits at -1
         want = 0.0
         if cls == 2 or (cls == 1 and old["male_ref"]):
             want = -1.0
@@ -226,9 +228,11 @@ contract(
     ensures=[
         ("rowcount", "len(result) == len(self.data)"),
         # autosomes 0; Y -1; X -1 only for a male reference; PAR-X counts as autosomal under a diploid-PAR genome;
-        # PAR-Y is left unspecified by the statement (class 4 is excluded here)
-        ("flat_levels", "forall(0, len(result), lambda k: implies(CLS != 4, not isnull(result[k]) and val(result[k]) == "
-                        "ite(CLS == 2 or (CLS == 1 and is_haploid_x_reference), -1, 0)))".replace("CLS", _CLS_S)),
+        # PAR-Y: -1 like the rest of Y under a female reference; left unspecified under a male reference
+        ("flat_levels", "forall(0, len(result), lambda k: implies(CLS != 4 or not is_haploid_x_reference, "
+                        "not isnull(result[k]) and val(result[k]) == "
+                        "ite(CLS == 2 or (CLS == 4 and not is_haploid_x_reference) or (CLS == 1 and is_haploid_x_reference), -1, 0)))"
+                        .replace("CLS", _CLS_S)),
     ],
     ghost=dict(frame_exempt_keys=("chr_x", "chr_y")),
     props=("C15", "C05"),
